@@ -43,6 +43,17 @@ def sessions_for(exe, tier, seed):
                                    params=dict(rcvbuf_r=rb, rcvbuf_l=rng.choice([4096, 61440]), finack_l=1, finack_r=1,
                                                sndbuf_l=rng.choice([4096, 65536, 1 << 20])))
     H = H + P.gen_parallel(exe, [f"C09/s/{base + i}" for i in range(ns)], fs)
+    # loss-free networks with every combination of FIN-ACK support on the two sides and (almost) no stall: the two ends must
+    # agree on what was negotiated, so the graceful close completes in a few timer periods (oracle_c09, `lossfree`)
+    def fm(live, rng):
+        fl, fr = rng.choice([(1, 0), (0, 1), (1, 0), (0, 1), (1, 1), (0, 0)])
+        S = P.c09_stall_session(live, rng, rng.choice([0, 50, 300, 2000]),
+                                params=dict(rcvbuf_r=rng.choice([1024, 4096, 30000, 61440]), rcvbuf_l=rng.choice([4096, 61440]),
+                                            finack_l=fl, finack_r=fr, sndbuf_l=rng.choice([4096, 65536])))
+        if getattr(S, "c09", None):
+            S.c09["lossfree"] = (fl, fr)
+        return S
+    H = H + P.gen_parallel(exe, [f"C09/m/{base + i}" for i in range(max(n // 6, 8))], fm)
     # graceful close with queued data on sockets without FIN-ACK support
     H = H + P.gen_parallel(exe, [f"C09/c/{base + i}" for i in range(max(ns // 2, 8))],
                            lambda live, rng: P.c09_noack_close_session(live, rng))
